@@ -219,41 +219,68 @@ class C05(Prop):
                 vec += [k % nt] * int(cnt)
         def execute():
             s = Sched(vec, [self.target])
-            stores = self._mk_stores(specs, setatp)
             glog = []
             lock_types = (type(threading.Lock()), type(threading.RLock()))
-            for j, st in enumerate(stores):
-                # every lock object reachable from the store (attributes, and values of dict/list attributes) becomes
-                # scheduler-aware, identity preserved, so that code using further locks cannot block the scheduler;
-                # only `_lock` (the lock the model knows) is numbered j, the others get ids >= 1000
-                seen = {}
+            stores = []
 
-                def conv(o, name):
-                    if isinstance(o, lock_types):
-                        if id(o) not in seen:
-                            primary = name == "_lock"
-                            lk = RecLock(s, j if primary else 1000 + 100 * j + len(seen), st, glog, self._snap)
-                            lk.reentrant = isinstance(o, lock_types[1])
-                            seen[id(o)] = lk
-                        return seen[id(o)]
-                    return None
-                primary_obj = getattr(st, "_lock", None)
-                if primary_obj is not None:
-                    conv(primary_obj, "_lock")
-                for k, v in list(vars(st).items()):
-                    r = conv(v, k)
-                    if r is not None:
-                        setattr(st, k, r)
-                    elif isinstance(v, dict):
-                        for kk, vv in list(v.items()):
-                            r = conv(vv, k)
-                            if r is not None:
-                                v[kk] = r
-                    elif isinstance(v, list):
-                        for ii, vv in enumerate(v):
-                            r = conv(vv, k)
-                            if r is not None:
-                                v[ii] = r
+            def store_of(lock):
+                """(store index, is the lock the model knows) for a lock object, looked up when it is acquired"""
+                for j, st in enumerate(stores):
+                    for k, v in vars(st).items():
+                        if v is lock or (isinstance(v, dict) and any(x is lock for x in v.values())) \
+                                or (isinstance(v, list) and any(x is lock for x in v)):
+                            primary = k == "_lock" or ("_lock" not in vars(st) and k.startswith("_lock"))
+                            return j, primary
+                return None, False
+
+            class LateLock(RecLock):
+                def acquire(self2, blocking=True, timeout=-1):
+                    j, primary = store_of(self2)
+                    self2.store = stores[j] if j is not None else None
+                    self2.store_id = j if (j is not None and primary) else 1000 + (100 * j if j is not None else 900)
+                    return RecLock.acquire(self2, blocking, timeout)
+
+                def release(self2):
+                    if self2.store is None:
+                        SLock.release(self2)
+                    else:
+                        RecLock.release(self2)
+
+            def factory(reentrant):
+                lk = LateLock(s, -1, None, glog, self._snap)
+                lk.reentrant = reentrant
+                return lk
+
+            class FakeThreading:
+                """`threading` as seen by the module under test: every Lock/RLock it creates, at any time, is
+                scheduler-aware (a lock created lazily by the first caller must not escape the scheduler)"""
+                def __getattr__(self2, k):
+                    return getattr(threading, k)
+
+                def Lock(self2):
+                    return factory(False)
+
+                def RLock(self2):
+                    return factory(True)
+            real_threading = self.M.threading
+            self.M.threading = FakeThreading()
+            try:
+                stores.extend(self._mk_stores(specs, setatp))
+                # locks obtained some other way (e.g. `from threading import Lock`) are replaced in place
+                for j, st in enumerate(stores):
+                    for k, v in list(vars(st).items()):
+                        if isinstance(v, lock_types):
+                            lk = factory(isinstance(v, lock_types[1]))
+                            setattr(st, k, lk)
+                        elif isinstance(v, dict):
+                            for kk, vv in list(v.items()):
+                                if isinstance(vv, lock_types):
+                                    v[kk] = factory(isinstance(vv, lock_types[1]))
+                return run_threads(s, stores, glog)
+            finally:
+                self.M.threading = real_threading
+
+        def run_threads(s, stores, glog):
             rets = [[None] * len(p) for p in threads]
 
             def mk(t):
